@@ -251,3 +251,83 @@ def RelEq (a b : Rel) : Prop := a.out = b.out
 def RelPerm (a b : Rel) : Prop := List.Perm a.out b.out
 
 end RlModel.P
+
+-- ---------------------------------------------------------------------------------------
+-- correlated sub-plans (`apply`, `exists`, `in`): planner/rules/plan.rs subquery_rules
+-- ---------------------------------------------------------------------------------------
+namespace RlModel.P
+
+/-- A correlated sub-plan — the right input of `apply`, the argument of `exists` / `in`: its rows
+depend on the outer row.  (The executor cannot run these nodes: their meaning is the SQL meaning
+of a correlated subquery, evaluated once per outer row.) -/
+structure DRel where
+  cols : List VExpr
+  owned : Col → Bool
+  rows : Env → List Env
+
+/-- Rows of a correlated sub-plan extend the outer row: outside the columns the sub-plan itself
+defines they carry the outer row's values — that is how an expression inside the subquery reads
+an outer column. -/
+def DRel.Extends (R : DRel) : Prop :=
+  ∀ l, ∀ r ∈ R.rows l, ∀ x, R.owned x = false → r x = l x
+
+/-- A plan that does not read the outer row, used as a sub-plan. -/
+def lift (R : Rel) : DRel :=
+  { cols := R.cols, owned := R.owned, rows := fun l => R.rows.map (merge R.owned l) }
+
+def dfilter (c : BExpr) (R : DRel) : DRel := { R with rows := fun l => (R.rows l).filter (holds c) }
+
+def dproj (es : List VExpr) (R : DRel) : DRel := { R with cols := es }
+
+def dhashagg (ks : List VExpr) (aggs : List Agg) (R : DRel) : DRel :=
+  { cols := ks ++ aggs.map fun a => fun ρ => ρ a.col
+    owned := fun x => R.owned x || aggs.any fun a => a.col == x
+    rows := fun l => (groups ks (R.rows l)).map fun g => aggRow aggs g.2 }
+
+/-- The one output row of a scalar aggregation inside a subquery: the aggregates' columns, and
+the outer row's values elsewhere (also when there is no input row). -/
+def aggRowD (outer : Env) (aggs : List Agg) (ms : List Env) : Env := fun x =>
+  match aggs.find? (fun a => a.col == x) with
+  | some a => a.fn ms
+  | none => outer x
+
+def dagg (aggs : List Agg) (R : DRel) : DRel :=
+  { cols := aggs.map fun a => fun ρ => ρ a.col
+    owned := fun x => R.owned x || aggs.any fun a => a.col == x
+    rows := fun l => [aggRowD l aggs (R.rows l)] }
+
+/-- The join types an `apply` node is ever built with: the binder builds `left_outer` applies
+(scalar subqueries), the subquery rules build `semi`, `anti` and `inner` ones (the translator
+re-checks both in the source). -/
+def ApplyType (t : JoinType) : Prop := t = .inner ∨ t = .leftOuter ∨ t = .semi ∨ t = .anti
+
+/-- `(apply type left right)`: for every left row, the rows of the sub-plan evaluated for it. -/
+def apply (t : JoinType) (L : Rel) (R : DRel) : Rel :=
+  { cols := if t = .semi ∨ t = .anti then L.cols else L.cols ++ R.cols
+    owned := fun x => L.owned x || (if t = .semi ∨ t = .anti then false else R.owned x)
+    rows := match t with
+      | .inner => L.rows.flatMap fun l => R.rows l
+      | .leftOuter => L.rows.flatMap fun l =>
+          match R.rows l with
+          | [] => [merge R.owned l nullEnv]
+          | ms => ms
+      | .semi => L.rows.filter fun l => !(R.rows l).isEmpty
+      | .anti => L.rows.filter fun l => (R.rows l).isEmpty
+      | _ => [] }
+
+/-- `(exists subquery)` on an outer row. -/
+def dexists (S : DRel) : BExpr := fun ρ => some (!(S.rows ρ).isEmpty)
+
+/-- First output column of a sub-plan. -/
+def col0 (S : DRel) : VExpr := S.cols.headD (fun _ => .null)
+
+/-- SQL `e IN (subquery)`: TRUE if some row's first column equals `e`; otherwise NULL if `e` or
+one of them is NULL (and there is a row); otherwise FALSE. -/
+def din (e : VExpr) (S : DRel) : BExpr := fun ρ =>
+  let vs := (S.rows ρ).map fun r => sqlEq (e ρ) (col0 S r)
+  if vs.any (· == some true) then some true
+  else if vs.any (· == none) then none
+  else some false
+
+end RlModel.P
+
